@@ -55,7 +55,8 @@ PROP = {
         "a C++ exception (any std::exception) thrown by a decoder on input that the harness's reference parser rejects is a clean failure; on input the reference accepts the decoder must succeed with the reference result",
         "when a decoder ACCEPTS input the reference rejects (Base64 with '=' in the middle, a dangling '%' in UrlDecode, a 10-byte scalable integer denoting a value > 2^64-1) only memory safety and the bound result <= capacity are asserted; such acceptances are counted (counters obs_*), not reported",
         "capacity-short calls must return the documented failure value (0 / false); whether bytes inside the given capacity are touched on failure is not asserted",
-        "hex round trips use delimiters that contain no hex digit; RawDataToHexStr lengths are <= 65535 (uint16_t parameter)",
+        "hex round trips use delimiters (0..3 characters) that contain no hex digit; RawDataToHexStr lengths are <= 65535 (uint16_t parameter), about 0.2 % of the rapidcheck cases use 12000..65535 bytes",
+        "large values (Base64 40-200 KiB, URL 20-200 KiB, arrays of up to 30000 scalable integers) are a 0.2 % tail of the rapidcheck cases; the libFuzzer engine runs them only from the seed corpus (check-byte-protected inputs)",
         "appendPOD/fetchPOD are called with 1..16 bytes (size 0 makes the big-endian path form `p + (0 - 1)`, a UBSan pointer-overflow report without any memory access; no property claims UB-freedom)",
         "Serializer on a non-empty std::vector: modelled as the unmodified code behaves - writing starts at index 0 and every append call resizes the vector to pos()+need, so from the first append call on the vector holds exactly the serialised bytes (size()==pos()); before the first call it is untouched (not asserted)",
         "raw back end: bytes of the caller's buffer beyond pos() are never modified (checked against a shadow copy of a dirty buffer)",
